@@ -166,7 +166,7 @@ def run_property(pid: str, level: str, tier: str, jobs: list, meta: dict) -> int
         "functions_encoded_count": len(funcs),
         "bounds": meta.get("bounds", {}),
         "outside_claim": meta.get("outside", []),
-        "stubs": meta.get("stubs", []),
+        "stubs": meta.get("stubs", []) + CH_STUBS,
         "samples": samples or meta.get("samples") or [{"note": "no obligation discharged"}],
         "explanation": meta.get("explanation", ""),
         "evaluations": max(1, n_ob + n_sides),
@@ -199,6 +199,8 @@ def run_property(pid: str, level: str, tier: str, jobs: list, meta: dict) -> int
         return EXIT_VIOLATION
     return EXIT_OK
 
+
+from pv.chfix import STUBS as CH_STUBS  # noqa: E402
 
 TRUSTED = ["CPython 3.12", "CrossHair 0.0.110 model of int/bool/tuple semantics", "z3 4.15/5.1 (z3-solver wheel)",
            "NumPy (oracle)", "our evaluators and reference semantics in /verif/pv (validated concretely each run)"]
